@@ -23,8 +23,6 @@ MUTANTS = [
      "            result[(u, v)] = max(edge_weight[(u, v)], max_desc[cv], max_anc[cu])", "            result[(u, v)] = max(edge_weight[(u, v)], max_desc[cv], max_anc[cu] if cu != cv else 0.0)", ["C17"]),
     ("c17_antichain_visited", "flowpaths/stdag.py",
      "                    elif (minFlow[u][v] == demand[(u, v)] \n                        and demand[(u, v)] >= 1 ", "                    elif (minFlow[u][v] == demand[(u, v)] \n                        and demand[(u, v)] >= 2 ", ["C17"]),
-    ("c06_idom_wrong_endpoint", "flowpaths/utils/safetypathcoverscycles.py",
-     "        t_idom = find_idom(adj_dict    , v,   G.sink)", "        t_idom = find_idom(adj_dict    , u,   G.sink)", ["C06"]),
     ("c06_multiplicity_plus_one", "flowpaths/stdigraph.py",
      "sequence_function[condensation_expanded_edge][:edge_multiplicity]", "sequence_function[condensation_expanded_edge][:edge_multiplicity + 1]", ["C06"]),
     ("c06_no_gap_protection", "flowpaths/abstractwalkmodeldigraph.py",
@@ -57,6 +55,38 @@ MUTANTS = [
      "        num_bits = ceil(log2(ub + 1))", "        num_bits = max(1, ceil(log2(ub + 1)) - (1 if ub > 40 else 0))", ["C12"]),
     ("c12_fix_var_lb_only", "flowpaths/utils/solverwrapper.py",
      "                    self.solver.changeColsBounds(len(idxs), idxs, vals, vals)", "                    self.solver.changeColsBounds(len(idxs), idxs, vals, np.maximum(vals, 1.0))", ["C12"]),
+    ("c01_keep_sink_in_path", "flowpaths/abstractpathmodeldag.py",
+     "                paths.append(path[1:-1])", "                paths.append(path[1:-1] if len(path) != 5 else path[1:])", ["C01"]),
+    ("c13_continue_after_inconclusive", "flowpaths/minflowdecomp.py",
+     "                # In this case, we stop the search.\n                return False\n\n        return False\n\n    def _solve_with_given_weights",
+     "                # In this case, we stop the search.\n                continue\n\n        return False\n\n    def _solve_with_given_weights", ["C13"]),
+    ("c18_no_deepcopy_constraints", "flowpaths/abstractpathmodeldag.py",
+     "        self.subpath_constraints = copy.deepcopy(subpath_constraints)", "        self.subpath_constraints = subpath_constraints", ["C18"]),
+    ("c19_accept_coverage_zero", "flowpaths/abstractpathmodeldag.py",
+     "            if self.subpath_constraints_coverage <= 0 or self.subpath_constraints_coverage > 1:", "            if self.subpath_constraints_coverage < 0 or self.subpath_constraints_coverage > 1:", ["C19"]),
+    ("c10_walk_coverage_minus_one", "flowpaths/abstractwalkmodeldigraph.py",
+     "                    >= constraint_length * coverage_fraction\n", "                    >= (constraint_length * coverage_fraction - (1 if constraint_length > 2 else 0))\n", ["C10"]),
+    ("c16_skip_conservation_high_indegree", "flowpaths/minerrorflow.py",
+     "            if self.G.in_degree(node) == 0 or self.G.out_degree(node) == 0:", "            if self.G.in_degree(node) == 0 or self.G.out_degree(node) == 0 or self.G.in_degree(node) > 2:", ["C16"]),
+    ("c11_condense_drops_last", "flowpaths/nodeexpandeddigraph.py",
+     "            for i in range(0, len(path) - 1, 2):", "            for i in range(0, len(path) - (1 if len(path) < 8 else 3), 2):", ["C11", "C01"]),
+    ("c08_k_none_ignores_ignore_list", "flowpaths/kminpatherror.py",
+     "            self.k = self.G.get_width(list(self.edges_to_ignore))", "            self.k = self.G.get_width()", ["C08"]),
+    ("c02_truncate_int_weights", "flowpaths/kflowdecompcycles.py",
+     "                round(weights_sol_dict[i])", "                int(weights_sol_dict[i] - 0.4)", ["C02"]),
+    ("c05_safe_walk_exact_multiplicity", "flowpaths/abstractwalkmodeldigraph.py",
+     "                                    self.edge_vars[(u, v, i)] >= m,", "                                    self.edge_vars[(u, v, i)] == m,", ["C05", "C04"]),
+    ("c03_width_bound_plus_one", "flowpaths/minflowdecomp.py",
+     "        self._lowerbound_k = max(self._lowerbound_k, stG.get_width(edges_to_ignore=list(self.edges_to_ignore) + list(stG.source_sink_edges)))",
+     "        self._lowerbound_k = max(self._lowerbound_k, stG.get_width(edges_to_ignore=list(self.edges_to_ignore) + list(stG.source_sink_edges)) + (1 if self.G.number_of_edges() % 5 == 0 else 0))", ["C03"]),
+    ("c09_self_loops_not_covered", "flowpaths/kpathcovercycles.py",
+     "            if (u, v) in self.edges_to_ignore:\n                continue", "            if (u, v) in self.edges_to_ignore or u == v:\n                continue", ["C09"]),
+    ("c07_unscaled_objective", "flowpaths/kleastabserrorscycles.py",
+     "        return sum(error * self.edge_error_scaling.get(edge, 1) for edge, error in edge_errors.items())", "        return sum(edge_errors.values())", ["C07"]),
+    ("c15_msc_weight_as_int", "flowpaths/minsetcover.py",
+     "                self.subset_weights[i] * self.subset_vars[i]", "                int(self.subset_weights[i]) * self.subset_vars[i]", ["C15"]),
+    ("c06_idom_wrong_endpoint", "flowpaths/utils/safetypathcoverscycles.py",
+     "        s_idoms[(u,v)] = tuple(reversed(s_idom)) if s_idom != None else G.source", "        s_idoms[(u,v)] = tuple(reversed(s_idom)) if (s_idom != None and G.in_degree(u) != 2) else G.source", ["C06"]),
 ]
 
 
